@@ -1,4 +1,5 @@
 import CorsVerif.Proofs.ACRH
+import CorsVerif.Proofs.BrowserLists
 /-
   C14 — Requested-header lists: sound for any bytes, complete for browsers.
 
@@ -45,32 +46,6 @@ theorem C14_sound (set : SortedSet) (hwf : set.WF) (lines : List Bytes) (h : Hea
     have := h.1.2 n hmem (by cases n <;> simp_all)
     simpa using this
 
-/-- Elements without whitespace are their own names. -/
-theorem elem_plain (e : Bytes) (h : ∀ b ∈ e, isOWS b = false) : Spec.elem e = some e := by
-  have hD : ∀ s : Bytes, (∀ b ∈ s, isOWS b = false) → Spec.dropOneOWS s = s := by
-    intro s hs
-    cases s with
-    | nil => rfl
-    | cons b t => simp [Spec.dropOneOWS, hs b List.mem_cons_self]
-  unfold Spec.elem
-  have h1 : Spec.dropOneOWS e.reverse = e.reverse := hD _ (fun b hb => h b (List.mem_reverse.mp hb))
-  simp only [h1, List.reverse_reverse, hD e h]
-  have hh : e.head?.any isOWS = false := by
-    cases e with
-    | nil => rfl
-    | cons b t => simp [h b List.mem_cons_self]
-  have hl : e.getLast?.any isOWS = false := by
-    cases hg : e.getLast? with
-    | none => rfl
-    | some b => simp [h b (List.mem_of_getLast? hg)]
-  simp [hh, hl]
-
-theorem names_plain (es : List Bytes) (h : ∀ e ∈ es, ∀ b ∈ e, isOWS b = false) : Spec.names es = some es := by
-  induction es with
-  | nil => rfl
-  | cons e es ih =>
-    simp only [Spec.names, elem_plain e (h e List.mem_cons_self), ih (fun e' he' => h e' (List.mem_cons_of_mem _ he'))]
-
 /-- **C14 (completeness for browsers).** The list a Fetch-compliant browser emits for allowed
 headers — non-empty names without commas or whitespace, sorted, unique, all allowed, joined by
 commas on one line — is approved. -/
@@ -108,6 +83,15 @@ theorem C14_browser (set : SortedSet) (hwf : set.WF) (names : List Bytes)
   intro n hn
   simpa using hmem n hn
 
+/-- **C14 (completeness for browsers, any tolerated shape).** A browser's list (sorted, unique),
+re-shaped by an intermediary in any tolerated way — split across field lines, at most one OWS byte
+around each element, at most 16 empty elements (`Browser.Tolerated`) — is approved exactly when
+every name is allowed. -/
+theorem C14_browser_tolerated (set : SortedSet) (hwf : set.WF) (names lines : List Bytes)
+    (hsorted : StrictSorted names) (ht : Browser.Tolerated names lines) :
+    Headers.check set lines = names.all (fun n => set.elems.contains n) :=
+  Browser.check_tolerated set hwf names lines hsorted ht
+
 /-- Non-vacuity and the documented boundary cases, on a concrete set {"a", "bc"}:
 two-byte whitespace-only elements are empty elements, three bytes are refused;
 16 empty elements pass, 17 fail; order matters. -/
@@ -121,6 +105,7 @@ example : Headers.check (SortedSet.ofList [[97]]) [List.replicate 16 44] = false
 #print axioms C14
 #print axioms C14_sound
 #print axioms C14_browser
+#print axioms C14_browser_tolerated
 #print axioms C14_wf
 
 end Cors
